@@ -1044,3 +1044,175 @@ def guards_mention(fi, stmt, name):
         if any(name in names_in(resolve_local(fi.node, g[0]) if isinstance(g[0], ast.Name) else g[0]) for g in cfg.guards(nid)):
             return True
     return False
+
+
+# ---------------------------------------------------------------------------
+# evaluation of a class at chosen parameter points (C03.g, evaluation route)
+#
+# `_kit_c04.ClassEval` computes `instance_of(cls).NAME` for the classes the package defines, i.e. at ONE parameter
+# point (the defaults).  A derived constant is a *function* of the base parameters, because tunings are made by
+# subclassing (`class Slow(TransportTuning): ACK_TIMEOUT = 5`), so it has to be compared with the reference formula at
+# several points.  `PointEval` evaluates an instance of a synthetic direct subclass
+#
+#     class <point>(Base):
+#         ACK_TIMEOUT = 7 / 2
+#         MAX_RETRANSMIT = 5 ...
+#
+# which is handed to ClassEval through a view of the program that knows one more class.  Everything else is ClassEval's
+# semantics unchanged: `self.X` / `getattr(self, "X")` / `type(self).X` see the point's value, `Base.X` (the class named
+# explicitly) and `super().X` see the base's own value -- exactly what Python does for such a subclass.
+
+
+class EvalRefused(Exception):
+    """the evaluator cannot compute the value (its own vocabulary); the clause refuses"""
+
+
+class _PointProgram:
+    """the analysed program plus one synthetic class (read-only view; everything else is delegated)"""
+
+    def __init__(self, prog, base_qn):
+        from collections import ChainMap
+
+        self._prog = prog
+        self._base = base_qn
+        self._extra = {}
+        self.classes = ChainMap(self._extra, prog.classes)
+
+    def __getattr__(self, name):
+        return getattr(self._prog, name)
+
+    def set_point(self, ci):
+        self._extra.clear()
+        self._extra[ci.qn] = ci
+
+    def mro(self, qn):
+        if qn in self._extra:
+            return [qn] + self._prog.mro(self._base)
+        return self._prog.mro(qn)
+
+    def is_subclass(self, a, b):
+        return b in self.mro(a)
+
+
+def _fraction_expr(v):
+    """expression whose exact value is the Fraction v (`7 / 2`; ClassEval's arithmetic is exact)"""
+    from fractions import Fraction
+
+    v = Fraction(v)
+    num = ast.Constant(value=abs(v.numerator))
+    e = num if v.denominator == 1 else ast.BinOp(left=num, op=ast.Div(), right=ast.Constant(value=v.denominator))
+    return ast.UnaryOp(op=ast.USub(), operand=e) if v < 0 else e
+
+
+class PointEval:
+    """value(name, point) -> Fraction: `instance.NAME` for an instance of a subclass of base_qn whose class attributes
+    take the values of `point` ({attribute name: Fraction}).  Raises EvalRefused when ClassEval does."""
+
+    def __init__(self, prog, base_qn):
+        from ._kit_c04 import ClassEval, Unsupported
+        from ..model import ClassInfo
+
+        self._Unsupported = Unsupported
+        self._ClassInfo = ClassInfo
+        self.base_ci = prog.classes[base_qn]
+        self.base_qn = base_qn
+        self.qn = base_qn + "<parameter point>"
+        self.view = _PointProgram(prog, base_qn)
+        self.ev = ClassEval(self.view, self.qn)
+        self.deps = {}
+
+    def _install(self, point):
+        body = [ast.Assign(targets=[ast.Name(id=k, ctx=ast.Store())], value=_fraction_expr(v)) for k, v in sorted(point.items())] or [ast.Pass()]
+        node = ast.parse("class _ParameterPoint(%s):\n    pass\n" % self.base_ci.node.name).body[0]
+        node.body = body
+        ast.fix_missing_locations(node)
+        ci = self._ClassInfo(self.qn, node, self.base_ci.module)
+        ci.bases = [self.base_qn]
+        ci.attrs = {st.targets[0].id: st.value for st in body if isinstance(st, ast.Assign)}
+        self.view.set_point(ci)
+        self.ev._members.pop(self.qn, None)
+        self.ev._steps = 0
+
+    def value(self, name, point):
+        self._install(point)
+        try:
+            v = self.ev.number(name)
+        except self._Unsupported as ex:
+            raise EvalRefused(str(ex))
+        except RecursionError:
+            raise EvalRefused("the evaluation nests too deeply")
+        except (ArithmeticError, ValueError, MemoryError) as ex:
+            raise EvalRefused("the evaluation fails with %s: %s" % (type(ex).__name__, ex))
+        self.deps.update(self.ev.deps)
+        return v
+
+
+def formula_value(src, values):
+    """exact value of one of the rule's own reference formulas (`T * (2**N - 1) * F`; + - * / ** over names and
+    integer literals) at {name: Fraction}"""
+    from fractions import Fraction
+
+    def ev(e):
+        if isinstance(e, ast.Constant) and isinstance(e.value, int) and not isinstance(e.value, bool):
+            return Fraction(e.value)
+        if isinstance(e, ast.Name):
+            return Fraction(values[e.id])
+        if isinstance(e, ast.UnaryOp) and isinstance(e.op, ast.USub):
+            return -ev(e.operand)
+        if isinstance(e, ast.BinOp):
+            a, b = ev(e.left), ev(e.right)
+            if isinstance(e.op, ast.Add):
+                return a + b
+            if isinstance(e.op, ast.Sub):
+                return a - b
+            if isinstance(e.op, ast.Mult):
+                return a * b
+            if isinstance(e.op, ast.Div):
+                return a / b
+            if isinstance(e.op, ast.Pow) and b.denominator == 1:
+                return a ** int(b)
+        raise ValueError("reference formula outside + - * / **: %s" % ast.unparse(e))
+
+    return ev(ast.parse(src, mode="eval").body)
+
+
+def parameter_grid(axes):
+    """[{name: value}] -- the full cross product of the axes [(name, [values])], the first value of every axis (the
+    default) varying slowest, so that the first points differ from the defaults in as few coordinates as possible"""
+    points = [{}]
+    for name, vals in axes:
+        points = [dict(p, **{name: v}) for p in points for v in vals]
+    first = {name: vals[0] for name, vals in axes}
+    points.sort(key=lambda p: sum(1 for k in p if p[k] != first[k]))
+    return points
+
+
+def first_difference(pe, name, ref_src, letters, points):
+    """The first point at which `instance.name` differs from the reference formula -> (point, got, want), or None when
+    they agree at every point.  letters: {formula letter: attribute name}.  EvalRefused (with the point) otherwise."""
+    for p in points:
+        try:
+            got = pe.value(name, p)
+        except EvalRefused as ex:
+            raise EvalRefused("%s (at %s)" % (ex, show_point(p)))
+        want = formula_value(ref_src, {l: p[a] for l, a in letters.items()})
+        if got != want:
+            return p, got, want
+    return None
+
+
+def show_number(v):
+    """an exact Fraction for a message: integers and short exact decimals as such, anything else approximately"""
+    if v.denominator == 1:
+        return str(v.numerator)
+    try:
+        f = float(v)
+    except OverflowError:
+        return "%s%d digits" % ("-" if v < 0 else "", len(str(abs(v.numerator // v.denominator))))
+    if type(v)(f) == v and len(repr(f)) <= 12:
+        return repr(f)
+    return "~%.10g" % f
+
+
+def show_point(p):
+    return ", ".join("%s=%s" % (k, show_number(v)) for k, v in p.items())
